@@ -43,6 +43,12 @@ impl Group for C11Sim {
             // composite persister: both sides restore the same signer; the main store is lost and recovered
             c("world backup|al add g|vh 0 g 0|rv 0|restart|scp 0 0|forget 0|blk+ g|restart|ks 1000"),
             c("world backup|al add gx|ks 1000|vh 0 g 1|mainloss|rv 0|al rm g|restart|scp 0 0|mainloss|blk+ g"),
+            // acknowledged only if written: requests during which the store refuses writes
+            c("vh 0 g 0|failw s rv 0"),
+            c("scp 0 0|failw s scp 0 0"),
+            c("world backup|vh 0 g 0|rv 0|failw m scp 0 0"),
+            c("world backup|scp 0 0|scp 0 0|failw m cpr 0 g"),
+            c("world backup|vh 0 g 0|failw m sh 0"),
             // a full channel map
             c("newch 1|newch 2|newch 3|newch 4|restart|newch 4|forget 2|newch 4|restart|newch 5"),
             // closing through either entry point must be durable
@@ -73,6 +79,15 @@ impl Group for C11Sim {
             if rng.chance(4, 5) { pre.push("act".to_string()); }
             for (i, o) in pre.into_iter().enumerate() { ops.insert(i, o); }
         }
+        // sometimes the last request runs while the store refuses writes (in `world backup`: either side)
+        if rng.chance(1, 4) {
+            let inner = rng.pick(&["vh 0 g 0", "rv 0", "scp 0 0", "scp1 0 0", "cpr 0 g", "sh 0", "shr", "shx 0 g", "mc g", "mc1 g", "act", "al add g", "newch 5", "forget 0", "forget 1"]).to_string();
+            let side = if ops.first().map(|o| o == "world backup").unwrap_or(false) && rng.chance(1, 2) { "m" } else { "s" };
+            // bring the channel into a state where the request is likely to be accepted
+            if inner == "rv 0" { ops.push("vh 0 g 0".into()); }
+            if inner == "cpr 0 g" { ops.push("scp 0 0".into()); ops.push("scp 0 0".into()); }
+            ops.push(format!("failw {} {}", side, inner));
+        }
         ops
     }
     fn exec_case(&self, ops: &[String]) -> CaseOut {
@@ -86,10 +101,21 @@ impl Group for C11Sim {
             let (out, _pending) = exec_op(&mut sim, op);
             let kind = op.split(' ').next().unwrap_or("");
             co.tags.insert(format!("{}:{}", kind, out.class().split(':').next().unwrap()));
+            if kind == "failw" {
+                // a request during which the store refused every write: if it is nevertheless acknowledged
+                // (Ok), everything below applies — the state it acknowledged must be durable; if it is
+                // refused or the signer aborts, the signer stops here (storage failures are outside C10)
+                co.tags.insert(format!("failw-inner:{}:{}", op.split(' ').nth(2).unwrap_or(""), out.class().split(':').next().unwrap()));
+                if out != Outcome::Ok {
+                    assert!(i + 1 == ops.len(), "failw must be the last op of a case");
+                    co.out.push(out.class());
+                    break;
+                }
+            }
             let mem = view(&sim.node(), true);
             if out == Outcome::Ok && mem != before_view { kinds_changed.insert(kind.to_string()); n_changed += 1; }
             if !matches!(out, Outcome::Panic(_)) {
-                if op != "restart" && op != "mainloss" {
+                if op != "restart" && op != "mainloss" && kind != "failw" {
                     // crash point between prepare() and commit()
                     match sim.restore_shadow_crash() {
                         Err(e) => co.violations.push(Violation { kind: "restore-failed:prepare-commit".into(), desc: format!("after {}: {}", op, e), at: i }),
